@@ -3,14 +3,14 @@
    (stop_cause, stop_queue facts, owner_in, all_done, started, fresh_fields, ...), the invariants, the proofs
    and the non-vacuity Examples are in srv/SrvC08.v (effects of critical sections, invariant bundle, no crash),
    srv/SrvC08b.v (stop once, status, WaitStatus after the handlers), srv/SrvC08c.v (cancellation, retained
-   notifications, restart), srv/SrvC08q.v (quiescence, termination), srv/SrvC08r.v (drained notifications)
+   notifications, restart), srv/SrvC08q.v (quiescence, termination), srv/SrvC08u.v (unblocking channels), srv/SrvC08r.v (drained notifications)
    and srv/SrvC08x.v (scenarios).
    All statements quantify over ALL configurations, ALL reachable states (reach = window boundaries, reachf =
    every intermediate state too) and ALL traces; there are no bounds.
    OWaitRet carries an [option stopcause]: "at most one flag" holds by type. *)
 From Coq Require Import List NArith ZArith Bool Arith Lia.
 From RecordUpdate Require Import RecordUpdate.
-From JV Require Import Bytes Msg SrvModel SrvLemmas SrvBasics SrvC10 SrvC08 SrvC08b SrvC08c SrvC08q SrvC08r SrvC08s.
+From JV Require Import Bytes Msg SrvModel SrvLemmas SrvBasics SrvC10 SrvC08 SrvC08b SrvC08c SrvC08q SrvC08r SrvC08s SrvC08u.
 Import ListNotations.
 
 (** 1. No interleaving makes the process panic: none of the model's crash outcomes (CrNilChannel = deliver
@@ -198,6 +198,14 @@ Theorem c08_terminates : forall c s, reach c s -> quiescent s = true -> running 
   wg s = 0 /\ waits s = 0 /\ all_done s.
 Proof. exact c08_terminates_q. Qed.
 Print Assumptions c08_terminates.
+
+(* on a channel whose Close unblocks Recv the reader needs no assumption: the closing error is in flight *)
+Theorem c08_terminates_unblock : forall c s, reach c s -> quiescent s = true -> running s = false ->
+  cf_unblock c = true ->
+  (forall k t, nth_error (tasks s) k = Some t -> t_st t <> TRunning) -> 0 < cf_K c ->
+  wg s = 0 /\ waits s = 0 /\ all_done s.
+Proof. exact terminates_unblock. Qed.
+Print Assumptions c08_terminates_unblock.
 
 (* with a concurrency limit of 0 a retained notification queues for a slot for ever *)
 Theorem c08_terminates_K0_refuted :
